@@ -111,7 +111,7 @@ def evalStringInfix (op : String) (l : Bytes) (right : Obj) : M Obj :=
     if n < 0 then pure (err "right operand of * on strings must be a positive integer")
     else do
       mustBeOk (l.length * n.toInt)
-      pure (.str (repeatBytes l n.toInt.toNat))
+      if l.isEmpty then pure (.str []) else pure (.str (repeatBytes l n.toInt.toNat))
   | _, _ => pure (err "unknown operator")
 
 /-- `evalArrayInfixExpression` (value semantics: `append` never writes into a shared backing array) -/
@@ -124,7 +124,7 @@ def evalArrayInfix (op : String) (l : List Obj) (right : Obj) : M Obj :=
       if n < 0 then pure (err "right operand of * on arrays must be a positive integer")
       else do
         mustBeOk (l.length * n.toInt)
-        pure (newArray (repeatList l n.toInt.toNat))
+        if l.isEmpty then pure (newArray []) else pure (newArray (repeatList l n.toInt.toNat))
   | "PLUS" =>
     match right with
     | .array r => do
